@@ -36,6 +36,13 @@ def gen_functions(tier):
         for s in stmts:
             src += "\n".join("    " + ln for ln in s.split("\n")) + "\n"
         out.append(({"body": bk, "ret": rk, "doc_ret": bool(dr), "ftype": ft}, src))
+    # placeholder docstrings (they clean to the empty string): the placeholder is the docstring, not a statement of the body
+    for ph, ft, rk in itertools.product(('""', '"""   """', "''"), ("static", "self"), ("none", "name", "int")):
+        first = "self, " if ft == "self" else ""
+        src = "def f(%s*, alpha: int = 5, beta: int = 2):\n    %s\n" % (first, ph)
+        for st in list(BODIES["assign"]) + ([RETURNS[rk]] if RETURNS[rk] else []):
+            src += "\n".join("    " + ln for ln in st.split("\n")) + "\n"
+        out.append(({"body": "assign", "ret": rk, "doc_ret": False, "ftype": ft, "placeholder_doc": ph}, src))
     return out
 
 
